@@ -361,3 +361,16 @@ def _half_order(ex):
 
 GLOBAL_FIXUPS['txscript/v2.halfOrder'] = _half_order
 GLOBAL_FIXUPS['txscript.halfOrder'] = _half_order
+
+
+@intrinsic('unicode/utf8.ValidString', 'unicode/utf8.Valid')
+def _utf8_valid(ex, args, ins, where):
+    s = args[0]
+    bs = str_bytes(s) if isinstance(s, (bytes, StrV)) else ex.slice_elems(s)
+    if any(is_sym(b) for b in bs):
+        raise Unsupported('utf8.ValidString on symbolic bytes')
+    try:
+        bytes(bs).decode('utf8')
+        return True
+    except UnicodeDecodeError:
+        return False
